@@ -95,8 +95,10 @@ class Outcome:
             "coverage": coverage, "assumptions": self.assumptions, "wall_s": round(wall, 2),
             "violations": len(by_sig),
         }
-        with open(os.path.join(EVIDENCE_DIR, self.prop + ".json"), "w") as f:
-            json.dump(ev, f, indent=1, default=str)
+        if not getattr(self, "replay_mode", False):
+            # a replay re-judges one recorded case; it must not replace the evidence of the last full run
+            with open(os.path.join(EVIDENCE_DIR, self.prop + ".json"), "w") as f:
+                json.dump(ev, f, indent=1, default=str)
         for l in lines:
             sys.stdout.write(l + "\n")
         if lines:
